@@ -183,7 +183,11 @@ func genC05(tier, out string, sum *Summary) {
 	}
 	// exact ties and carries at the 34th digit: the dropped part is exactly one half (round half to even),
 	// just under, just over; all nines carry into a 35th digit
-	for i := 0; i < 40; i++ {
+	nlead := 12
+	if tier == "thorough" {
+		nlead = 200
+	}
+	for i := 0; i < nlead; i++ {
 		lead := randDigits(33)
 		for _, last := range []string{"0", "1", "2", "5", "8", "9"} {
 			x := lead + last // 34 digits
@@ -244,6 +248,44 @@ func genC05(tier, out string, sum *Summary) {
 		sum.count("range-ends/" + o.Kind)
 		if !(o.Kind == "val" && sameValue(o.Value, json.Number(c.want), false)) {
 			sum.direct("cancellation", "sum(@)", arr, "the exact total is "+c.want+", got "+describe(o))
+		}
+	}
+	// unary plus is the identity on every number, computed ones included
+	for i := 0; i < 60; i++ {
+		x, y := randDecimal(), randDecimal()
+		d := map[string]any{"x": json.Number(x), "y": json.Number(y)}
+		emit("PToNumber", []string{x}, "+ x", d)
+		emit("PToNumber", []string{x}, "+ + x", d)
+		emit("PNeg", []string{x}, "- + x", d)
+		emit("PAdd", []string{x, y}, "+ (x + y)", d)
+		emit("PSub", []string{x, y}, "+ (x - y)", d)
+		emit("PMul", []string{x, y}, "+ (x * y)", d)
+		emit("PNeg", []string{x}, "+ (- x)", d)
+		emit("PAbs", []string{x}, "+ abs(x)", d)
+		emit("PSum", []string{x, y}, "+ sum([x, y])", d)
+		emit("PToNumber", []string{x}, "+ to_number(to_string(x))", d)
+		emit("PAdd", []string{x, y}, "x + + y", d)
+	}
+	// one number, many spellings: zero with either sign, scale and exponent; trailing zeros; exponent forms
+	groups := [][]string{{"0", "-0", "0.0", "-0.0", "0e5", "-0e-5", "0.000", "0E0", "-0.00e10"}, {"1", "1.0", "1e0", "10e-1", "0.1e1", "1.000000000000000000000000000000000", "100E-2"}, {"-2.5", "-2.50", "-25e-1", "-0.25e1", "-250E-2"}, {"100", "1e2", "1E+2", "100.0", "0.1e3", "10e1"}}
+	for gi, g := range groups {
+		for _, a := range g {
+			for _, b := range g {
+				d := map[string]any{"x": json.Number(a), "y": json.Number(b)}
+				for _, op := range binops[6:] { // < <= > >= == !=
+					emit(op.coq, []string{a, b}, "x "+op.text+" y", d)
+					emit(op.coq, []string{a, b}, "`"+a+"` "+op.text+" `"+b+"`", nil)
+				}
+				emit("PSub", []string{a, b}, "x - y", d)
+				emit("PAdd", []string{a, b}, "x + y", d)
+				emit("PMul", []string{a, b}, "x * y", d)
+			}
+			// against the other groups: never equal
+			for _, b := range groups[(gi+1)%len(groups)] {
+				d := map[string]any{"x": json.Number(a), "y": json.Number(b)}
+				emit("PEq", []string{a, b}, "x == y", d)
+				emit("PLt", []string{a, b}, "x < y", d)
+			}
 		}
 	}
 	// division by zero and overflow are errors, never infinities
